@@ -68,3 +68,10 @@ func init() {
 		addVariants(variant{Prop: p, Name: "future-base-" + p, Patch: "seeded/future-base.diff", Benign: true})
 	}
 }
+
+// whole-struct copies (R14.4): a copied builder must replace every slice and map it copied
+func init() {
+	addVariants(
+		variant{Prop: "C14", Name: "clone-by-struct-copy-leaves-the-interceptor-lists-shared", Patch: "seeded/future-base.diff", More: []edit{{File: "parser/builder.go", Old: "\tclone := &Builder{\n", New: "\tclone := new(Builder)\n\t*clone = *pb\n\t_ = &Builder{\n"}}, Rule: "R14.4", Construct: "Clone"},
+	)
+}
